@@ -964,7 +964,8 @@ class MySQLParser(SQLParser):
         # a name written as a quoted string
         if value == '':
             raise ParsingException('Identifier can not be an empty string')
-        return Identifier(value)
+        # the whole string is one name: dots and back-quotes inside it are not special
+        return Identifier(parts=[value])
 
     @_('quote_string',
        'dquote_string')
